@@ -21,7 +21,7 @@ B = h.bounds(
 )
 ITEMS = ["data element", "SetContext('a','A')", "SetContext('b.c',1)", "SetContext('d','{{a}}_x')",
          "StoreContext", "UpdateContextFromStatic", "MakeFilename('{{a}}')", "Write('{{a}}')",
-         "Cache('{{a}}.pkl')", "SetContext('a','B')"]
+         "Cache('{{a}}.pkl')", "SetContext('a','B')", "MakeFilename('{{b.c}}')"]
 SHAPES = ["flat Sequence", "tail nested in a Sequence at a symbolic cut",
           "tail as one branch of a Split next to a SetContext('e','E') branch",
           "Source(generator, *items)", "head nested in a Sequence at a symbolic cut",
@@ -69,10 +69,13 @@ def make_item(k):
     if k == 8:
         c = Cache("{{a}}.pkl")
         return c
+    if k == 10:
+        return MakeFilename("{{b.c}}")
     return SetContext("a", "B")
 
 
 SUFFIX = [SetContext, ("a", "Z"), ("b.c", 2), ("q", "Q")]
+SUFFIX_ALT = [SetContext, ("b.c", 2), ("a", "Z"), ("q", "Q")]
 
 
 def apply_set(ctx, k):
@@ -115,7 +118,7 @@ def reference(kinds, shape, cut):
                         ctx = apply_set(ctx, k)
                     except KeyError:
                         failed = True
-            elif k in (4, 5, 6, 7, 8):
+            elif k in (4, 5, 6, 7, 8, 10):
                 obs[p] = None if failed else copy.deepcopy(ctx)
         return ctx, failed
 
@@ -138,7 +141,9 @@ def build(kinds, shape, cut, suffix, sibling):
     for c in els:
         if isinstance(c, Cache):
             pass
-    suf = [SetContext(*SUFFIX[1 + i]) for i in range(suffix)]
+    # programs observing b.c get the suffix that rewrites b.c first
+    table = SUFFIX_ALT if 10 in kinds else SUFFIX
+    suf = [SetContext(*table[1 + i]) for i in range(suffix)]
     if shape == 0:
         seq = Sequence(*(els + suf))
     elif shape == 1:
@@ -162,7 +167,7 @@ def observe(k, el):
         return copy.deepcopy(el.context)
     if k == 5:
         return copy.deepcopy(el._context)
-    if k == 6:
+    if k in (6, 10):
         res = el((0, {}))
         return res[1].get("output", {}).get("filename") if isinstance(res, tuple) else None
     if k == 7:
@@ -174,6 +179,9 @@ def expected_obs(k, ctx):
     if k in (4, 5):
         return ctx
     a = ctx.get("a")
+    if k == 10:
+        bc = ctx.get("b", {}).get("c") if isinstance(ctx.get("b"), dict) else None
+        return None if bc is None else str(bc)
     if k == 6:
         return a
     if k == 7:
@@ -185,15 +193,15 @@ def check_program(n: int, k0: int, k1: int, k2: int, k3: int, shape: int, cut: i
                   suffix: int, sibling: bool) -> bool:
     """
     pre: 1 <= n <= B.LEN
-    pre: 0 <= k0 <= 9 and 0 <= k1 <= 9 and 0 <= k2 <= 9 and 0 <= k3 <= 9
+    pre: 0 <= k0 <= 10 and 0 <= k1 <= 10 and 0 <= k2 <= 10 and 0 <= k3 <= 10
     pre: 0 <= shape < B.SHAPES
     pre: 0 <= cut <= n
     pre: 0 <= suffix <= B.SUF
-    pre: h.in_shard(k0 + 10 * (shape % 2))
+    pre: h.in_shard(k0 + 11 * (shape % 2))
     post: _
     """
     n = h.concrete(n, 1, B.LEN)
-    kinds = [h.concrete(k, 0, 9) for k in [k0, k1, k2, k3][:n]]
+    kinds = [h.concrete(k, 0, 10) for k in [k0, k1, k2, k3][:n]]
     shape = h.concrete(shape, 0, B.SHAPES - 1)
     cut = h.concrete(cut, 0, n)
     suffix = h.concrete(suffix, 0, B.SUF)
@@ -289,10 +297,10 @@ def check_no_leak(n: int, k0: int, k1: int, k2: int, nested: bool) -> bool:
 
 
 CONDITIONS = [
-    dict(fn="check_program", shards=(20, 20), budget=(90, 1500),
+    dict(fn="check_program", shards=(22, 22), budget=(90, 1500),
          smoke=["check_program(2, 1, 4, 2, 0, 0, 0, 1, False)", "check_program(2, 1, 3, 5, 0, 1, 1, 1, False)",
                 "check_program(2, 1, 6, 7, 0, 2, 1, 0, True)", "check_program(2, 3, 4, 8, 0, 3, 0, 0, False)",
-                "check_program(2, 9, 4, 0, 0, 2, 1, 0, False)", "check_program(2, 1, 6, 0, 0, 4, 1, 1, False)", "check_program(2, 1, 5, 0, 0, 5, 1, 1, False)"]),
+                "check_program(2, 9, 4, 0, 0, 2, 1, 0, False)", "check_program(2, 1, 6, 0, 0, 4, 1, 1, False)", "check_program(2, 1, 5, 0, 0, 5, 1, 1, False)", "check_program(2, 2, 10, 0, 0, 0, 0, 1, False)"]),
     dict(fn="check_no_leak", shards=(7, 7), budget=(80, 900),
          smoke=["check_no_leak(3, 1, 5, 6, False)", "check_no_leak(2, 1, 6, 0, True)"]),
 ]
